@@ -235,12 +235,11 @@ func runCheck(o *checkOpts) int {
 	var results []*FuncResult
 	for i := 0; i < len(queue); i++ {
 		it := queue[i]
-		if o.only != "" && !strings.Contains(it.name, o.only) {
-			continue
-		}
 		fc := eng.contractFor(it.fn)
 		r := eng.VerifyFunc(it.fn, fc)
-		results = append(results, r)
+		if o.only == "" || strings.Contains(it.name, o.only) {
+			results = append(results, r)
+		}
 		if r.Bailed != "" {
 			return toolErr("cannot generate VCs for %s: %s", it.name, r.Bailed)
 		}
@@ -287,6 +286,14 @@ func runCheck(o *checkOpts) int {
 	// discharge in parallel
 	var wg sync.WaitGroup
 	sem := make(chan struct{}, 12)
+	names := map[string]bool{}
+	for i, ob := range all {
+		ob.Seq = i
+		if names[ob.Name] && !ob.ExpectFail {
+			return toolErr("duplicate obligation name %s", ob.Name)
+		}
+		names[ob.Name] = true
+	}
 	for _, ob := range all {
 		if ob.Goal == "true" && !ob.ExpectFail {
 			ob.Verdict, ob.Backend = "unsat", "trivial"
@@ -311,6 +318,11 @@ func runCheck(o *checkOpts) int {
 	for _, k := range known {
 		if k.Property == o.property && k.Status == "known" {
 			knownSet[k.Obligation] = k
+		}
+	}
+	for _, ob := range all {
+		if ob.Verdict == "error" {
+			return toolErr("solver rejected the script of %s: %s", ob.Name, firstLines(ob.Output, 2))
 		}
 	}
 	var failing, vacuous []*Obligation
